@@ -269,6 +269,14 @@ def templates(col, lang):
             col.eval({"lang": lang, "text": t}, nontrivial=nt, labels=["class:deep", f"lang:{lang}"])
 
 
+def atheris_campaign(col, seed, runs, seeded):
+    """Coverage-guided engine (atheris / libFuzzer) with this property's oracle inside the target; findings are
+    re-validated through run_case. Skipped with an 'inconclusive' note when atheris cannot be installed offline."""
+    from vf.fuzz import campaign
+
+    campaign.run(col, ID, seed, runs, seeded)
+
+
 def plan(tier, seed):
     quick = tier == "quick"
     per = 640 if quick else 8000
@@ -277,4 +285,6 @@ def plan(tier, seed):
         for k in range(2 if quick else 4):
             jobs.append(("gen", {"seed": shard_seed(seed, ID, f"{lang}{k}"), "n": per // (2 if quick else 4), "lang": lang}))
         jobs.append(("templates", {"lang": lang}))
+    for k, seeded in enumerate([False, True] if quick else [False, True, False, True, False, True]):
+        jobs.append(("atheris_campaign", {"seed": shard_seed(seed, ID, f"fz{k}"), "runs": 2000 if quick else 150000, "seeded": seeded}))
     return jobs
